@@ -256,9 +256,9 @@ private theorem withFlow_sim (stored : FlowKey) (isClient : Bool) (f : TcpFlow) 
   · exact .set _ _ _ _ (body_sim H hri g₀ _ _ _ _)
   · exact body_sim H hri g₀ _ _ _ _
 
-theorem httpProg_sim (s : Seg) : Sim (httpProg H s) (httpProg (H.pure g₀) s) := by
+theorem httpDispatch_sim (s : Seg) : Sim (httpDispatch H s) (httpDispatch (H.pure g₀) s) := by
   have httl : (H.pure g₀).ttlMs = H.ttlMs := rfl
-  unfold httpProg
+  unfold httpDispatch
   rw [httl]
   refine .get _ _ _ (fun f => ?_)
   cases f with
@@ -272,6 +272,15 @@ theorem httpProg_sim (s : Seg) : Sim (httpProg H s) (httpProg (H.pure g₀) s) :
       split
       · exact .insert _ _ _ _ _ (.ret _)
       · exact .ret _
+
+theorem httpProg_sim (s : Seg) : Sim (httpProg H s) (httpProg (H.pure g₀) s) := by
+  unfold httpProg
+  split
+  · refine .get _ _ _ (fun f => ?_)
+    split
+    · exact httpDispatch_sim H hri g₀ s
+    · exact .remove _ _ _ (.remove _ _ _ (httpDispatch_sim H hri g₀ s))
+  · exact httpDispatch_sim H hri g₀ s
 
 end
 
